@@ -55,6 +55,7 @@ fn main() {
     std::fs::create_dir_all(&scratch).unwrap();
     let obs = obs::Obs::new();
     nervusdb_storage::verif_hooks::install(Some(obs.clone()));
+    let _ = obs::GLOBAL.set(obs.clone());
 
     match args[1].as_str() {
         "storage" => {
